@@ -275,10 +275,56 @@ def _check_several_indexed(seed, i):
     return {"i": i, "ok": True, "key": ("calculation", "several-indexed", n, n_idx), "rel": True}
 
 
+def _check_nested_predicate(seed, i):
+    """references inside predicates of secondary-instance paths, one predicate nested in another: every reference inside ANY bracket is
+    anchored with current(), every reference outside all brackets is a plain relative path"""
+    rng = rng_for(seed, PID, "nested-predicate", i)
+    names = ["q", "p"]
+    def ref():
+        return "${%s}" % rng.choice(names)
+    inner = f"instance('l9')/root/item[name = {ref()}]/label"
+    shape = rng.choice(["nested", "nested", "two", "plain"])
+    n_in = 1
+    if shape == "nested":
+        tail = rng.random() < 0.7
+        expr = f"instance('l9')/root/item[x = {inner}" + (f" and name = {ref()}" if tail else "") + "]/label"
+        n_in += 1 if tail else 0
+    elif shape == "two":
+        expr = f"{inner} + instance('l9')/root/item[x = {ref()}]/label"
+        n_in += 1
+    else:
+        expr = inner
+    n_out = 0
+    if rng.random() < 0.6:
+        expr = f"{ref()} + " + expr
+        n_out += 1
+    if rng.random() < 0.6:
+        expr = expr + f" + {ref()}"
+        n_out += 1
+    form = {"survey": [{"type": "begin repeat", "name": "r", "label": "R"}, {"type": "text", "name": "q", "label": "Q"}, {"type": "text", "name": "p", "label": "P"},
+                       {"type": "select_one l9", "name": "s", "label": "S"}, {"type": "calculate", "name": "c", "calculation": expr}, {"type": "end repeat"}],
+            "choices": [{"list_name": "l9", "name": "a", "label": "A", "x": "1"}]}
+    st, r = xf.convert_form(forms.as_dict(form))
+    if st != "ok":
+        return {"i": i, "skip": "rejected: " + str(r)[:80]} if st == "pyxerr" else {"i": i, "skip": "crash (C17)"}
+    val = ro.find_attr(xf.lparse(r.xform), "/data/r/c", "calculation")
+    if val is None:
+        return {"i": i, "skip": "cell calculation not located"}
+    if "${" in val:
+        return {"i": i, "form": form, "what": f"a ${{...}} token survives: {val!r}"}
+    got_in = len(re.findall(r"current\(\)/\.\./[qp] ", val))
+    got_all = len(re.findall(r"\.\./[qp] ", val))
+    if got_in != n_in or got_all - got_in != n_out or "/data/r/q" in val or "/data/r/p" in val:
+        return {"i": i, "form": form, "what": f"{n_in} reference(s) inside predicates must be anchored with current() and {n_out} outside must not; got {val!r}"}
+    return {"i": i, "ok": True, "key": ("calculation", "nested-predicate", shape, n_in, n_out), "rel": True}
+
+
 def _check(args):
     seed, i = args
     if i % 12 == 7:
         return _check_several_indexed(seed, i)
+    if i % 12 == 9:
+        return _check_nested_predicate(seed, i)
     rng = rng_for(seed, PID, "oracle", i)
     tree = layouts(rng, 1)[0]
     force_indexed = i % 12 == 5
